@@ -308,6 +308,7 @@ def cli_cases(tier):
     out += probe_fault_cases()
     out += gex_order_cases()
     out += gex_split_cases()
+    out += gex_only_cases()
     more = []
     for i, (family, pol, peer, fmt) in enumerate(c for c in out if c[3] == 'json'):
         if i % 3 == 0:
@@ -402,6 +403,23 @@ def gex_order_cases():
                     pol = {'subset': subset, 'host_keys': list(peer['key']), 'kex': list(peer['kex']), 'ciphers': list(peer['ciphers']), 'macs': list(peer['macs'])}
                     pol[pf] = list(porder)
                     out.append(('gex-order', pol, peer, 'json' if (len(out) % 2) else 'text'))
+    return out
+
+
+def gex_only_cases():
+    """peers whose only key exchange the host-key probes can use is a group exchange (alone; between a post-quantum method and the strict-KEX
+    marker; both group exchanges): the host keys are measured all the same, and a policy's size fields are compared with what was measured"""
+    out = []
+    G256, G1 = 'diffie-hellman-group-exchange-sha256', 'diffie-hellman-group-exchange-sha1'
+    for kexl in ([G256], ['sntrup761x25519-sha512@openssh.com', G256, 'kex-strict-s-v00@openssh.com'], [G1, G256], ['frob-kex@example.org', G1]):
+        for larger in (False, True):
+            for want_bits, have_bits in ((3072, 2048), (3072, 3072), (2048, 4096), (4096, 3072)):
+                peer = dict(BASE_PEER, kex=list(kexl), key=['rsa-sha2-512', 'ssh-ed25519'], dh={k: 2048 for k in kexl if 'group-exchange' in k})
+                peer['host_keys'] = {'rsa-sha2-512': {'hostkey_size': have_bits, 'ca_key_type': '', 'ca_key_size': 0}, 'ssh-ed25519': {'hostkey_size': 256, 'ca_key_type': '', 'ca_key_size': 0}}
+                pol = {'larger': larger, 'kex': list(kexl), 'hostkey_sizes': {'rsa-sha2-512': {'hostkey_size': want_bits, 'ca_key_type': '', 'ca_key_size': 0},
+                                                                             'ssh-ed25519': {'hostkey_size': 256, 'ca_key_type': '', 'ca_key_size': 0}}}
+                for fmt in ('text', 'json'):
+                    out.append(('gex-only', pol, peer, fmt))
     return out
 
 
